@@ -188,6 +188,26 @@ func runC16(c *Ctx) {
 		r.Fail("S0", "v1:entries", "-", fmt.Sprintf("UNRESOLVED-ANCHOR: %d v1 goroutine entries found, expected 4", entries))
 	}
 	c02V1Subsequence(c)
+	// S9: after a stop/cancel that arrives before the release signal the delivered slice stays
+	// frozen (what was delivered remains what was written)
+	r.Doc("S9", "(= C08 K2/K3, v1 join) a no-copy slice delivered before a stop/cancel is never touched again", 4)
+	sub := &Ctx{V1: c.V1, V2: c.V2, Tier: c.Tier, R: NewReport("tmp", c.Tier)}
+	for _, jr := range joinDiscs(sub) {
+		if jr.v1 {
+			checkK2(sub, jr)
+			checkK3(sub, jr)
+		}
+	}
+	for _, o := range sub.R.Obls {
+		if o.Rule == "J0" {
+			if !o.OK && strings.Contains(o.Key, "v1:") {
+				r.Fail("S9", o.Key, o.Site, o.Detail)
+			}
+			continue
+		}
+		r.Check(o.OK, "S9", o.Key, o.Site, o.Detail, o.Detail)
+	}
+	errChannelNonBlocking(c, c.V1, "S1")
 }
 
 func c16routine(c *Ctx, rt *Routine) {
